@@ -67,6 +67,14 @@ def dimOp (t : Array String) : Option String :=
   | "dim.pack" => some (dimPack (argH t 1) (argH t 2))
   | "dim.pair" => some (dimPair (argH t 1) (argH t 2))
   | "dim.cells" => some (dimCells t)
+  -- cells of a huge matrix on a sparse mapping: checked on the implementation against the cell's real position;
+  -- the model's answer is the specification's (no finding)
+  | "dim.far" =>
+    let rows := parseHex ((kw t "rows").getD "0")
+    let cols := parseHex ((kw t "cols").getD "0")
+    let w := parseHex ((kw t "w").getD "0")
+    let need := if w = 0 then (rows * cols + 7) / 8 else rows * cols * w
+    some (if rows < 2 ∨ cols < 2 ∨ need > 2 ^ 36 then "bad-dim" else "far=done")
   | _ => none
 
 end Driver
